@@ -10,3 +10,6 @@ JOBS.append(dict(name='stop_2x1', src='../CONC/conc.cpp', fn='h_conc', tiers=['t
 BOUNDS = {'quick': 'backlog of 0..1 posted messages (1 producer x 1 message, possibly still logging during the stop; thorough: 2 producers), stop by resetOwnThread / aboutToQuit / destructor with a live QCoreApplication; and destructor after the QCoreApplication is gone', 'thorough': 'same'}
 OUTSIDE = 'schedules that are not well nested (two threads suspended inside each other alternately), more threads / messages / rounds, weak memory (sequential consistency assumed), wall-clock bounds (termination = no reachable state in which the stopper spins with no progress possible under fair sleeping)'
 ASSUMPTIONS = ['nested-preemption sequentialisation (qtmodel/qm_thread_full.h): a step that would block on a mutex is pruned; equivalent later start is explored instead', 'posted events are FIFO; a finished event loop and a missing QCoreApplication discard queued events (Qt behaviour)', 'counterexamples are replayed natively on the real code over the Qt model, not on OS threads']
+
+for _j in JOBS:
+    _j.setdefault('mem_est', 28)
